@@ -287,3 +287,6 @@ func (r *Report) Finish(verifDir string, seed int, cmdline string) int {
 	}
 	return 0
 }
+
+// Has reports whether an obligation with this rule and key was already recorded.
+func (r *Report) Has(rule, key string) bool { return r.seen[rule+"|"+key] }
